@@ -210,10 +210,15 @@ func childMain() {
 	debug.SetGCPercent(-1)
 	a := os.Args[2:]
 	syscall.Umask(int(octal(a[0])))
+	quiet := os.Getenv("C14_QUIET") != "" // kill lines: no result line, hence no write(2) of the child's own after the operation
 	if a[3] == "hist" {
-		os.Stdout.WriteString("res=" + performHist(a[2], octal(a[1]), a[4]) + "\n")
+		if r := performHist(a[2], octal(a[1]), a[4]); !quiet {
+			os.Stdout.WriteString("res=" + r + "\n")
+		}
 		return
 	}
 	err := perform(a[3], a[2], octal(a[1]), parsePieces(a[4]), atoi(a[5]), a[6], nil)
-	os.Stdout.WriteString("res=" + resCode(err) + "\n")
+	if !quiet {
+		os.Stdout.WriteString("res=" + resCode(err) + "\n")
+	}
 }
